@@ -81,6 +81,7 @@ type Knobs struct {
 	PCB           bool    `json:"persisted_callbacks"`
 	Geo           bool    `json:"geo"`
 	MergeBuf      int     `json:"merge_buf"`
+	NoOpt         bool    `json:"no_optimisations"`
 }
 
 func pick(t *Tape, label string, vals ...int) int { return vals[t.Draw(len(vals), label)] }
@@ -155,6 +156,7 @@ func decodeKnobs(p *Profile, t *Tape) *Knobs {
 	k.W["introducer"] = pick(t, "k.w.introducer", 4, 1, 12)
 	k.Sticky = pick(t, "k.sticky", 0, 0, 4, 7)
 	k.Geo = t.Chance(1, 4, "k.geo")
+	k.NoOpt = t.Chance(1, 3, "k.noopt")
 	return k
 }
 
@@ -389,7 +391,11 @@ func (r *Run) buildConfig() bluge.Config {
 			}
 		}
 	}
-	return cfg.VerifWithIndexConfig(ic)
+	cfg = cfg.VerifWithIndexConfig(ic)
+	if r.k.NoOpt {
+		cfg = cfg.DisableOptimizeConjunction().DisableOptimizeConjunctionUnadorned().DisableOptimizeDisjunctionUnadorned()
+	}
+	return cfg
 }
 
 func eventName(k int) string {
@@ -583,6 +589,15 @@ func (r *Run) exec(c *client, op *Op) {
 		h := &heldReader{r: rd, base: base, openWin: r.s.Win}
 		if r.p.ExtRead {
 			h.baseExt = ReadExt(rd)
+			// asked again at once in another order, while this reader is still
+			// the writer's current root (recycled iterators are only used
+			// then): the answers must not depend on what was asked before
+			for _, rot := range []int{3, 7} {
+				if d := diffExt(h.baseExt, ReadExtRot(rd, rot)); d != "" {
+					r.fail("reader-isolation", fmt.Sprintf("a Reader just obtained from the writer (window %d) answered differently when the same reads were repeated in another order: %s", r.s.Win, d))
+					return
+				}
+			}
 		}
 		r.mu.Lock()
 		r.slots[op.Slot] = h
@@ -642,7 +657,7 @@ func (r *Run) rereadHeld(slot int, h *heldReader) {
 		return
 	}
 	if h.baseExt != nil {
-		ext := ReadExt(h.r)
+		ext := ReadExtRot(h.r, r.s.Win) // same reads in another order: answers must not depend on search history
 		if d := diffExt(h.baseExt, ext); d != "" {
 			r.fail("reader-isolation", fmt.Sprintf("held reader #%d (opened in window %d) changed: %s", slot, h.openWin, d))
 			return
